@@ -332,6 +332,7 @@ package cache
 //@   ensures [C13] old(jsize) * 5 <= maxCacheBytes * 4 && maxCacheBytes >= 0 && maxCacheBytes <= 1125899906842624 ==> jsize == old(jsize)
 //@   loop 1 invariant forall i int :: 0 <= i && i < len(candidates) ==> candidates[i].meta != nil && allocated(candidates[i].meta)
 //@   loop 1 invariant jsize == old(jsize)
+//@   loop 1 invariant [C13] forall i int :: 0 <= i && i < len(candidates) && now >= candidates[i].meta.LastAccess && now - candidates[i].meta.LastAccess < 4611686018427387904 && candidates[i].meta.Size < 1125899906842624 ==> candidates[i].priority == (now - candidates[i].meta.LastAccess) / 1000000 + (candidates[i].meta.Size / 1048576) * 100
 //@   loop 2 invariant rangeidx <= len(candidates) && jsize <= old(jsize)
 //@   loop 2 invariant forall i int :: 0 <= i && i < len(candidates) ==> candidates[i].meta != nil && allocated(candidates[i].meta)
 //@   loop 2 invariant maxCacheBytes >= 0 && maxCacheBytes <= 1125899906842624 ==> targetSize == (maxCacheBytes * 4) / 5
